@@ -141,7 +141,7 @@ static void exhaustive_perm(const char *mode, int n, int keyvariant, bool reinse
 			if(!want_case(my)) continue;
 			begin_case(mode, my);
 			g_bad = false; g_trace.clear();
-			for(int i = 0; i < n; i++) { pool[i].id = i; pool[i].key = keyvariant == 0 ? i : keyvariant == 1 ? i / 2 : keyvariant == 2 ? 0 : (i % 2); pool[i].agg_size = 0; }
+			for(int i = 0; i < n; i++) { pool[i].id = i; pool[i].key = keyvariant == 0 ? i : keyvariant == 1 ? i / 2 : keyvariant == 2 ? 0 : (i % 2); pool[i].agg_size = 0; new (&pool[i].hook) frg::rbtree_hook(); }
 			bool completed = guarded("C06", [&] {
 				T tree;
 				std::vector<Node *> ref;
@@ -185,7 +185,7 @@ static void exhaustive_order(const char *mode, int n) {
 		for(int ro = 0; ro < nrem; ro++) {
 			begin_case(mode, x);
 			g_bad = false; g_trace.clear();
-			for(int i = 0; i < n; i++) { pool[i].id = i; pool[i].key = 0; pool[i].agg_size = 0; }
+			for(int i = 0; i < n; i++) { pool[i].id = i; pool[i].key = 0; pool[i].agg_size = 0; new (&pool[i].hook) frg::rbtree_hook(); }
 			bool completed = guarded("C06", [&] {
 				OrderTree tree;
 				std::vector<Node *> ref;
